@@ -110,6 +110,12 @@ Theorem C16_block_eq_spec : forall k b, key_ok k = true -> length b = 16%nat ->
 Proof. exact aes_block_eq_spec. Qed.
 Print Assumptions C16_block_eq_spec.
 
+(* the total block functions used by the rest of the development are FIPS-197 Cipher / InvCipher *)
+Theorem C16_aes_E_spec : forall k b, key_ok k = true -> length b = 16%nat ->
+  aes_E k b = Cipher k b /\ aes_D k b = InvCipher k b.
+Proof. exact aes_E_spec. Qed.
+Print Assumptions C16_aes_E_spec.
+
 (* the key schedule alone: the rows of Ke are the round keys of KeyExpansion *)
 Theorem C16_key_schedule : forall k, key_ok k = true ->
   Forall2 wst (expand_Ke k) (round_keys (KeyExpansion k)).
